@@ -82,8 +82,12 @@ func c26Bitmap(bm *roaring.Bitmap) (blob []int, ids []any) {
 		return
 	}
 	blob = c26Bytes(raw)
-	for _, id := range bm.ToArray() {
-		ids = append(ids, []int{int(id >> 16), int(id & 0xffff)})
+	// members as [high 16 bits, low 16 bits]; of a large bitmap only the first and last 32
+	arr := bm.ToArray()
+	for i, id := range arr {
+		if len(arr) <= 64 || i < 32 || i >= len(arr)-32 {
+			ids = append(ids, []int{int(id >> 16), int(id & 0xffff)})
+		}
 	}
 	return
 }
@@ -398,7 +402,11 @@ func TestVerif_C26_RoundTrip(t *testing.T) {
 
 		var l []query.BranchRepos
 		for k, c := 0, c26RandCount(rng); k < c; k++ {
-			l = append(l, query.BranchRepos{Branch: c26RandStr(rng), Repos: c26RandBitmap(rng)})
+			bm := c26RandBitmap(rng)
+			if c > 100 { // many items: keep them small
+				bm = roaring.BitmapOf(uint32(k))
+			}
+			l = append(l, query.BranchRepos{Branch: c26RandStr(rng), Repos: bm})
 		}
 		c26RoundTrip(tr, brs(l), "random")
 
@@ -530,7 +538,7 @@ func TestVerif_C26_Garbage(t *testing.T) {
 	w.Flush()
 	f.Close()
 
-	nw := verifkit.EnvInt("C26_WORKERS", 6)
+	nw := verifkit.EnvInt("C26_WORKERS", 8)
 	results := make([]*c26Result, len(scripts))
 	var mu sync.Mutex
 	var wg sync.WaitGroup
@@ -679,7 +687,7 @@ func TestVerif_C26_Child(t *testing.T) {
 		t.Skip("child of TestVerif_C26_Garbage")
 	}
 	from, stride := verifkit.EnvInt("C26_CHILD_FROM", 0), verifkit.EnvInt("C26_CHILD_STRIDE", 1)
-	cpuLimit := time.Duration(verifkit.EnvInt("C26_CPU_MS", 1000)) * time.Millisecond
+	cpuLimit := time.Duration(verifkit.EnvInt("C26_CPU_MS", 500)) * time.Millisecond
 	memLimit := uint64(verifkit.EnvInt("C26_MEM_MB", 256)) << 20
 	wallLimit := 120 * time.Second
 
